@@ -13,7 +13,8 @@ A scenario is a JSON-able dict (see futb_model.scenario_to_coq for the same data
   target   None | host index  (execute(..., host=...))
   pools    initial pool state per host: 0 missing 1 shutdown 2 NoConnectionsAvailable 3 ConnectionBusy(send_msg)
            4 borrow raises other exception 5 send_msg raises ConnectionShutdown 6 healthy
-  idem     statement.is_idempotent ; spec = [policy present?, max_attempts]
+  idem     is_idempotent of the statement executed ; pidem (optional) is_idempotent of its PreparedStatement
+  spec     [policy present?, max_attempts]
   cl       initial consistency level ; pv protocol version ; ks connection keyspace (None | int)
   ps       None (SimpleStatement) | [id, qs, ks|None]   (BoundStatement of that prepared statement)
   known    [[id, qs, ks|None], ...]   contents of cluster._prepared_statements
@@ -25,6 +26,7 @@ A scenario is a JSON-able dict (see futb_model.scenario_to_coq for the same data
            7 ConnectionException 8 ConnectionShutdown
 The run returns one observation (flat list of ints, see obs encoding below) per op.
 """
+import collections
 import re
 from threading import Lock
 
@@ -92,6 +94,7 @@ class FakeConnection(object):
         self.env, self.hidx = env, hidx
         self.lock = Lock()
         self._requests = {}
+        self.request_ids = collections.deque()     # _query hands the stream id back here when send_msg raises ConnectionBusy
         self.orphaned_request_ids = set()
         self.orphaned_threshold = 10 ** 9
         self.is_defunct = False
@@ -441,7 +444,11 @@ class Run(object):
             query = d['Q'].SimpleStatement('SELECT * FROM t')
             params = None
         if sc['ps'] is not None:
+            # 'pidem': is_idempotent of the PreparedStatement at execution time (may differ from the BoundStatement's,
+            # which is the statement actually executed: flag set after binding, or overridden on the bound statement)
             bound = query.bind(())
+            if sc.get('pidem') is not None:
+                query.is_idempotent = bool(sc['pidem'])
             bound.is_idempotent = bool(sc['idem'])
             query = bound
             # _create_response_future binds PreparedStatement itself; pass the BoundStatement so the flag is ours
